@@ -340,9 +340,11 @@ def run_term(i, t, res):
             res.violation(f"C15/pass-through/marshal/{cell(t)}/{'raises:' + om.excname if not om.ok else 'differs'}",
                           f"marshal({short(v, 80)}, t={s}) -> {short(om.val if om.ok else om.exc, 100)}; expected {short(w, 100)}", case)
         # (3) repeatability: again, and after clearing every cache
-        for phase in ("again", "after-clear"):
+        for phase in ("again", "after-clearing-the-routine-caches", "after-clear"):
             if phase == "after-clear":
                 cold.clear_all()
+            elif phase == "after-clearing-the-routine-caches":
+                _clear_routine_caches()
             u2 = timed(BUILD_LIMIT, typelib.unmarshaller, ann)
             m2 = timed(BUILD_LIMIT, typelib.marshaller, ann)
             res.evals += 2
@@ -361,6 +363,22 @@ def run_term(i, t, res):
             res.violation(f"C15/repeatable/after-clear/build-fails/{cell(t)}", f"second construction of routines for {s} fails", case)
     if len(res.samples) < 2:
         res.samples.append({"T": s})
+
+
+def _clear_routine_caches():
+    """Forget the built routines and node sequences only (what a long-running process does when it evicts them), keep every other memo:
+    the second construction then walks the type graph again on top of whatever the first walk left behind."""
+    import typelib.codecs
+    import typelib.graph
+    import typelib.marshals.api
+    import typelib.unmarshals.api
+
+    for mod, names in ((typelib.marshals.api, ("_marshaller", "marshaller")), (typelib.unmarshals.api, ("_unmarshaller", "unmarshaller")),
+                       (typelib.codecs, ("_codec", "codec")), (typelib.graph, ("_static_order", "static_order", "itertypes"))):
+        for n in names:
+            f = getattr(mod, n, None)
+            if f is not None and hasattr(f, "cache_clear"):
+                f.cache_clear()
 
 
 def run_unit(unit, tier, res):
